@@ -400,7 +400,23 @@ func (e *Engine) notifyOnChange(owner, lock string) bool {
 			}
 		}
 	}
-	return false
+	return len(e.notifyWhen(owner, lock)) > 0
+}
+
+// notifyWhen: `notify-when <lock> NAME : cond` — a change of state guarded by <lock> that leaves cond true at the
+// release must have been followed by a Broadcast (the waiters' predicate may have become true).
+func (e *Engine) notifyWhen(owner, lock string) []*Clause {
+	tb := e.cs.Types[owner]
+	if tb == nil {
+		return nil
+	}
+	var out []*Clause
+	for _, cl := range tb.All("notify-when") {
+		if len(cl.Words) > 0 && cl.Words[0] == lock {
+			out = append(out, cl)
+		}
+	}
+	return out
 }
 
 // entryGuard: `entryguard <mapfield> : <Type.lock>` — entry m[k] is additionally protected by k's own lock.
@@ -467,6 +483,21 @@ func (r *Run) assertInvariants(st *State, fr *Frame, owner, lock string, base T,
 			e.emitWith(st, name, it.sub, it.hyps, it.atom, cl.Expr, e.posOf(in), props, cl)
 		}
 	}
+}
+
+// evalTypeClause evaluates a clause of a type block with the block's self name bound to base.
+func (r *Run) evalTypeClause(st *State, owner string, base T, cl *Clause) T {
+	e := r.e
+	tb := e.cs.Types[owner]
+	t := r.typeOfOwner(owner)
+	x, err := parseSpec(cl.Expr)
+	if err != nil || t == nil {
+		e.fail("type clause %s: %v", cl.Expr, err)
+		return True
+	}
+	c := e.specCtx(st, st.top())
+	c.vars[tb.Self] = SV{V: base, T: types.NewPointer(t)}
+	return c.boolTerm(x)
 }
 
 // callOrdinalKind: ordinal of a call/defer instruction among instructions calling the same callee.
@@ -610,7 +641,20 @@ func (r *Run) release(st *State, fr *Frame, lr LockRef, mode LockMode, in ssa.In
 			}
 		}
 		r.assertInvariants(st, fr, lr.Owner, lr.Field, lr.Base, in, "release")
-		if e.notifyOnChange(lr.Owner, lr.Field) {
+		if nw := e.notifyWhen(lr.Owner, lr.Field); len(nw) > 0 {
+			k := "dirty:" + lr.Class + ":" + lr.Base.S
+			_, dirty := st.Facts[k]
+			for _, cl := range nw {
+				goal := True
+				if dirty {
+					goal = Not(r.evalTypeClause(st, lr.Owner, lr.Base, cl))
+				}
+				nm := cl.Words[len(cl.Words)-1]
+				e.emitWith(st, fmt.Sprintf("%s/notify-when:%s#%d", e.fnName[fr.Fn], nm, e.callOrdinalKind(fr.Fn, in)), "", nil, goal,
+					"state guarded by "+lr.Class+" changed (at "+st.Facts[k]+") leaving `"+cl.Expr+"` true, without a Broadcast before the release", e.posOf(in), cl.Props, cl)
+			}
+			delete(st.Facts, k)
+		} else if e.notifyOnChange(lr.Owner, lr.Field) {
 			k := "dirty:" + lr.Class + ":" + lr.Base.S
 			goal := True
 			if pos, dirty := st.Facts[k]; dirty {
@@ -761,6 +805,11 @@ func (r *Run) recvEvent(st *State, fr *Frame, ch T, et types.Type, in ssa.Instru
 	r.bumpChan(st, "recvd", ch)
 	r.yield(st, fr, in, "recv")
 	r.atCall(st, fr, "recv", []Val{ch}, nil, in)
+	for k := range st.Ghost {
+		if strings.HasPrefix(k, "called:") {
+			delete(st.Ghost, k) // calledsince() counts from the latest receive
+		}
+	}
 	if ctx, ok := e.doneOf[ch.S]; ok {
 		// a receive from ctx.Done() returns only once ctx is cancelled
 		r.ctxStep(st)
